@@ -59,6 +59,98 @@ Proof.
     + rewrite IH; [reflexivity|]. intro Hin. apply H. right. exact Hin.
 Qed.
 
+(* ---- small library: maps, permutations, counting ---- *)
+Lemma in_keys_mfind {A} k (m : zmap A) : In k (mkeys m) -> exists v, mfind k m = Some v.
+Proof.
+  induction m as [|[k' v] r IH]; cbn; [intros []|]. intros [E|H].
+  - subst. rewrite Z.eqb_refl. eauto.
+  - destruct (k =? k'); [eauto|apply IH; exact H].
+Qed.
+Lemma mfind_of_In_nodup {A} k (v : A) (m : zmap A) : NoDup (mkeys m) -> In (k, v) m -> mfind k m = Some v.
+Proof.
+  induction m as [|[k' v'] r IH]; cbn [mkeys map fst]; intros Hnd Hin; [destruct Hin|].
+  inversion Hnd as [|? ? Hn Hnd']; subst. cbn [mfind]. destruct Hin as [E|Hin].
+  - inversion E; subst. rewrite Z.eqb_refl. reflexivity.
+  - destruct (k =? k') eqn:Ek.
+    + exfalso. assert (k = k') by lia. subst. apply Hn. apply (in_map fst) in Hin. exact Hin.
+    + apply IH; assumption.
+Qed.
+
+Lemma mfind_in_keys_local {A} k (v : A) m : mfind k m = Some v -> In k (mkeys m).
+Proof. intros H. apply mfind_In in H. unfold mkeys. apply (in_map fst) in H. exact H. Qed.
+
+Lemma nodup_app_left {A} (a b : list A) : NoDup (a ++ b) -> NoDup a.
+Proof.
+  induction a as [|x r IH]; cbn; intros H; [constructor|].
+  inversion H; subst. constructor; [|apply IH; assumption].
+  intro Hin. apply H2. apply in_or_app. left. exact Hin.
+Qed.
+
+Lemma nodup_incl_split (l K : list Z) : NoDup l -> incl l K -> exists R, Permutation K (l ++ R).
+Proof.
+  revert K. induction l as [|x r IH]; intros K Hnd Hincl; [exists K; apply Permutation_refl|].
+  inversion Hnd as [|? ? Hn Hnd']; subst.
+  assert (Hx : In x K) by (apply Hincl; left; reflexivity).
+  destruct (in_split _ _ Hx) as (K1 & K2 & ->).
+  destruct (IH (K1 ++ K2) Hnd') as (R & HR).
+  { intros y Hy. assert (Hy' : In y (K1 ++ x :: K2)) by (apply Hincl; right; exact Hy).
+    apply in_app_or in Hy'. apply in_or_app. destruct Hy' as [H|[H|H]]; auto.
+    subst. contradiction. }
+  exists R. eapply Permutation_trans; [apply Permutation_sym; apply Permutation_middle|].
+  cbn [app]. apply perm_skip. exact HR.
+Qed.
+
+Lemma total_size_perm objs l l' : Permutation l l' -> total_size objs l = total_size objs l'.
+Proof. induction 1; cbn [total_size]; lia. Qed.
+Lemma targets_cnt_perm objs x l l' : Permutation l l' -> cntz x (targets_of objs l) = cntz x (targets_of objs l').
+Proof.
+  induction 1 as [| a l l' HP IH | a b l | l l' l'' H1 IH1 H2 IH2]; cbn [targets_of flat_map]; rewrite ?cntz_app; try lia.
+  - fold (targets_of objs l) (targets_of objs l'). lia.
+Qed.
+
+Lemma total_size_sub objs l K : NoDup l -> incl l K -> total_size objs l <= total_size objs K.
+Proof.
+  intros Hnd Hincl. destruct (nodup_incl_split l K Hnd Hincl) as (R & HP).
+  rewrite (total_size_perm objs _ _ HP), total_size_app. pose proof (total_size_nonneg objs R). lia.
+Qed.
+
+(* sorted maps built by minsert: list entries are what mfind returns *)
+Fixpoint zsorted {A} (m : zmap A) : Prop :=
+  match m with
+  | [] => True
+  | (k, _) :: r => (forall k' v', In (k', v') r -> k < k') /\ zsorted r
+  end.
+Lemma minsert_in {A} k (v : A) : forall m k' v', In (k', v') (minsert k v m) -> (k' = k /\ v' = v) \/ In (k', v') m.
+Proof.
+  induction m as [|[k0 v0] r IH]; intros k' v' H; cbn [minsert] in H.
+  - destruct H as [E|[]]. inversion E. auto.
+  - destruct (k <? k0).
+    + destruct H as [E|H]; [inversion E; auto|right; exact H].
+    + destruct (k =? k0).
+      * destruct H as [E|H]; [inversion E; auto|right; right; exact H].
+      * destruct H as [E|H]; [right; left; exact E|].
+        destruct (IH _ _ H) as [?|?]; [auto|right; right; assumption].
+Qed.
+Lemma zsorted_minsert {A} k (v : A) : forall m, zsorted m -> zsorted (minsert k v m).
+Proof.
+  induction m as [|[k0 v0] r IH]; intros Hs; cbn [minsert].
+  - cbn. split; [intros ? ? []|exact I].
+  - destruct Hs as (Hlt & Hs). destruct (k <? k0) eqn:E1.
+    + cbn [zsorted]. split; [|split; assumption].
+      intros k' v' [E|H]; [inversion E; lia|]. specialize (Hlt _ _ H). lia.
+    + destruct (k =? k0) eqn:E2.
+      * cbn [zsorted]. split; [|exact Hs]. intros k' v' H. specialize (Hlt _ _ H). lia.
+      * cbn [zsorted]. split; [|apply IH; exact Hs].
+        intros k' v' H. destruct (minsert_in _ _ _ _ _ H) as [(-> & _)|H']; [lia|apply (Hlt _ _ H')].
+Qed.
+Lemma zsorted_in_mfind {A} k (v : A) : forall m, zsorted m -> In (k, v) m -> mfind k m = Some v.
+Proof.
+  induction m as [|[k0 v0] r IH]; intros Hs Hin; [destruct Hin|].
+  destruct Hs as (Hlt & Hs). cbn [mfind]. destruct Hin as [E|Hin].
+  - inversion E; subst. rewrite Z.eqb_refl. reflexivity.
+  - specialize (Hlt _ _ Hin). destruct (k =? k0) eqn:E; [lia|]. apply IH; assumption.
+Qed.
+
 Section LoopSpec.
   Variables (Q St : Type).
   Variable qpop : Q -> option (Z * Q).
@@ -347,6 +439,195 @@ Section LoopSpec.
       + exfalso. apply Hnot. apply in_or_app. right. left. exact Heq.
       + destruct (in_split _ _ Hin) as (l2 & l3 & ->). exists pre, l2, l3. exact Hsplit.
     - lia.
+  Qed.
+
+  (* ---- totality: the loop does not panic and does not run out of fuel ---- *)
+  Hypothesis qpush_total : forall nd id s q, qpush nd id s q <> None.
+  Hypothesis keys_nodup : NoDup (mkeys objs).
+  Hypothesis targets_exist : forall id o l, mfind id objs = Some o -> In l (o_links o) -> In (l_obj l) (mkeys objs).
+  Hypothesis size_ok : total_size objs (mkeys objs) < 2 ^ 32.
+
+  Definition Ext (nodes : zmap node) (q : Q) (popped : list Z) : Prop :=
+    (forall x, In x (mkeys objs) -> exists nd, mfind x nodes = Some nd) /\
+    incl (popped ++ qelems q) (mkeys objs).
+
+  Lemma sort_links_total nodes : (forall x, In x (mkeys objs) -> exists nd, mfind x nodes = Some nd) ->
+    forall ls q removed s, (forall l, In l ls -> In (l_obj l) (mkeys objs)) ->
+    exists r, sort_links Q St qpush nodes ls q removed s = Some r.
+  Proof.
+    intros Hn. induction ls as [|l r IH]; intros q removed s Hl; cbn [sort_links]; [eauto|].
+    destruct (bump (l_obj l) removed) as [removed1 seen].
+    destruct (Hn (l_obj l) (Hl l (or_introl eq_refl))) as (nd & ->). cbn [obind].
+    destruct (seen =? nparents nd).
+    - destruct (qpush nd (l_obj l) s q) as [[q1 s1]|] eqn:E; [|exfalso; exact (qpush_total _ _ _ _ E)].
+      cbn [obind fst snd]. apply IH. intros l' Hl'. apply Hl. right. exact Hl'.
+    - apply IH. intros l' Hl'. apply Hl. right. exact Hl'.
+  Qed.
+
+  Lemma sort_loop_total : forall fuel nodes q removed cur popped s,
+    Inv nodes q removed cur popped -> Ext nodes q popped ->
+    (length (mkeys objs) - length popped < fuel)%nat ->
+    exists r, sort_loop Q St qpop qpush fuel objs nodes q removed cur popped s = Some r.
+  Proof.
+    induction fuel as [|f IH]; intros nodes q removed cur popped s HI HE Hfuel; [lia|].
+    cbn [sort_loop]. destruct (qpop q) as [[id q0]|] eqn:Ep; [|eauto].
+    destruct HI as (HN & HJ & Hcur & Hcurb & Hobjs & Hpos). destruct HE as (Hnodes & Hincl).
+    pose proof (qpop_some _ _ _ Ep) as Hperm. destruct HJ as (J1 & J2 & J3).
+    assert (Hperm' : Permutation (popped ++ qelems q) ((popped ++ [id]) ++ qelems q0)).
+    { rewrite <- app_assoc. apply Permutation_app_head. exact Hperm. }
+    assert (Hid_key : In id (mkeys objs)).
+    { apply Hincl. apply (Permutation_in _ (Permutation_sym Hperm')). apply in_or_app. left. apply in_or_app. right. left. reflexivity. }
+    assert (Hnd1 : NoDup ((popped ++ [id]) ++ qelems q0)) by (eapply Permutation_NoDup; [exact Hperm'|exact J1]).
+    assert (Hid_notin : ~ In id popped).
+    { rewrite <- app_assoc in Hnd1. apply NoDup_remove_2 in Hnd1. intro Hin. apply Hnd1. apply in_or_app. left. exact Hin. }
+    assert (Hincl1 : incl ((popped ++ [id]) ++ qelems q0) (mkeys objs)).
+    { intros x Hx. apply Hincl. apply (Permutation_in _ (Permutation_sym Hperm')). exact Hx. }
+    destruct (in_keys_mfind _ _ Hid_key) as (next & Enext). rewrite Enext. cbn [obind].
+    destruct (Hnodes id Hid_key) as (nd & End). rewrite End. cbn [obind].
+    set (nodes1 := minsert id (set_pos nd cur) nodes).
+    assert (Hsz : size_of objs id = blen (o_bytes next)) by (unfold size_of; rewrite Enext; reflexivity).
+    assert (Hpopnd : NoDup (popped ++ [id])) by (apply nodup_app_left in Hnd1; exact Hnd1).
+    assert (Hbound : total_size objs (popped ++ [id]) <= total_size objs (mkeys objs)).
+    { apply total_size_sub; [exact Hpopnd|]. intros x Hx. apply Hincl1. apply in_or_app. left. exact Hx. }
+    rewrite total_size_app in Hbound. cbn [total_size] in Hbound. rewrite Hsz in Hbound.
+    pose proof (blen_nonneg (o_bytes next)) as Hbl.
+    rewrite chk_u_some by lia. cbn [obind].
+    assert (Hnodes1 : forall x, In x (mkeys objs) -> exists nd', mfind x nodes1 = Some nd').
+    { intros x Hx. unfold nodes1. destruct (Z.eq_dec x id) as [->|Hne].
+      - rewrite mfind_minsert_same. eauto.
+      - rewrite mfind_minsert_other by congruence. apply Hnodes. exact Hx. }
+    destruct (sort_links_total nodes1 Hnodes1 (o_links next) q0 removed s) as ([[q1 removed1] s1] & Elinks).
+    { intros l Hl. eapply targets_exist; eauto. }
+    rewrite Elinks. cbn [obind].
+    (* next state satisfies the invariants *)
+    assert (HN1 : Nnodes nodes1) by (apply Nnodes_set_pos; assumption).
+    assert (HJ0 : J (popped ++ [id]) q0 removed (targets_of objs popped)).
+    { split; [exact Hnd1|]. split; [exact J2|].
+      intros x. rewrite <- J3. split; intro Hin.
+      - apply (Permutation_in _ (Permutation_sym Hperm')). exact Hin.
+      - apply (Permutation_in _ Hperm'). exact Hin. }
+    destruct (sort_links_spec nodes1 (popped ++ [id]) HN1 _ _ _ _ _ _ _ _ Elinks HJ0) as (HJ1 & Hgrow & _).
+    assert (Htg : targets_of objs (popped ++ [id]) = targets_of objs popped ++ map l_obj (o_links next)).
+    { rewrite targets_of_app, (targets_of_single _ _ _ Enext). reflexivity. }
+    rewrite <- Htg in HJ1.
+    apply IH.
+    - split; [exact HN1|]. split; [exact HJ1|]. split; [rewrite total_size_app; cbn [total_size]; lia|].
+      split; [lia|]. split.
+      + intros x Hx. apply in_app_or in Hx. destruct Hx as [Hx|[<-|[]]]; [apply Hobjs; exact Hx|eauto].
+      + intros x Hx. apply in_app_or in Hx. destruct Hx as [Hx|[<-|[]]].
+        * destruct (Hpos x Hx) as (ndx & Hndx & Hpx).
+          assert (x <> id) by (intro; subst; contradiction).
+          exists ndx. unfold nodes1. rewrite mfind_minsert_other by congruence.
+          split; [exact Hndx|]. rewrite posof_app_in by exact Hx. exact Hpx.
+        * exists (set_pos nd cur). unfold nodes1. rewrite mfind_minsert_same. split; [reflexivity|].
+          rewrite posof_app_notin by exact Hid_notin. cbn. exact Hcur.
+    - split; [exact Hnodes1|].
+      destruct HJ1 as (HJ1a & _ & HJ1c).
+      intros x Hx. apply HJ1c in Hx. destruct Hx as [->|Hx].
+      + apply Hincl. apply J3. left. reflexivity.
+      + (* x has been seen as a target: it is a key *)
+        assert (Hin : In x (targets_of objs (popped ++ [id]))) by (apply cntz_in_pos; lia).
+        unfold targets_of in Hin. apply in_flat_map in Hin. destruct Hin as (y & Hy & Hxy).
+        unfold tgt in Hxy. destruct (mfind y objs) as [oy|] eqn:Ey; [|destruct Hxy].
+        apply in_map_iff in Hxy. destruct Hxy as (l & <- & Hl). eapply targets_exist; eauto.
+    - assert (Hlen : (length (popped ++ [id]) <= length (mkeys objs))%nat).
+      { apply NoDup_incl_length; [exact Hpopnd|]. intros x Hx. apply Hincl1. apply in_or_app. left. exact Hx. }
+      rewrite app_length in *. cbn [length] in *. lia.
+  Qed.
+
+  (* ---- completeness of the final order and the final check, on acyclic graphs ---- *)
+  Variable rk : Z -> nat.
+  Hypothesis acyclic : forall id o l, mfind id objs = Some o -> In l (o_links o) -> (rk id < rk (l_obj l))%nat.
+  Hypothesis np_spec : forall x, np x = cntz x (targets_of objs (mkeys objs)).
+  Hypothesis has_parent : forall x, In x (mkeys objs) -> x <> root -> 1 <= np x.
+
+  Lemma final_all nodes qe removed cur ord : Inv nodes qe removed cur ord -> qelems qe = [] ->
+    incl ord (mkeys objs) -> forall x, In x (mkeys objs) -> In x ord.
+  Proof.
+    intros (_ & (J1 & J2 & J3) & _) Hqe Hincl. rewrite Hqe, app_nil_r in J1, J3.
+    destruct (nodup_incl_split ord (mkeys objs) J1 Hincl) as (R & HP).
+    assert (Hnd : NoDup (ord ++ R)) by (eapply Permutation_NoDup; [exact HP|exact keys_nodup]).
+    assert (Hgen : forall n x, rk x = n -> In x (mkeys objs) -> In x ord).
+    { induction n as [n IHn] using lt_wf_ind. intros x Hrk Hx.
+      apply J3. destruct (Z.eq_dec x root) as [->|Hne]; [left; reflexivity|right].
+      pose proof (has_parent x Hx Hne) as Hp. split; [exact Hp|].
+      rewrite np_spec, (targets_cnt_perm objs x _ _ HP), targets_of_app, cntz_app.
+      assert (Hz : cntz x (targets_of objs R) = 0).
+      { pose proof (cntz_nonneg x (targets_of objs R)) as Hnn.
+        destruct (Z.eq_dec (cntz x (targets_of objs R)) 0) as [E|E]; [exact E|exfalso].
+        assert (Hin : In x (targets_of objs R)) by (apply cntz_in_pos; lia).
+        unfold targets_of in Hin. apply in_flat_map in Hin. destruct Hin as (p & HpR & Hxp).
+        unfold tgt in Hxp. destruct (mfind p objs) as [op|] eqn:Eop; [|destruct Hxp].
+        apply in_map_iff in Hxp. destruct Hxp as (l & Hl & Hlin). subst x.
+        pose proof (acyclic p op l Eop Hlin) as Hlt.
+        assert (Hpk : In p (mkeys objs)) by (eapply mfind_in_keys_local; exact Eop).
+        assert (Hpo : In p ord) by (eapply (IHn (rk p)); [rewrite <- Hrk; exact Hlt|reflexivity|exact Hpk]).
+        clear - Hnd Hpo HpR. induction ord as [|y r IH]; [destruct Hpo|].
+        cbn in Hnd. inversion Hnd; subst. destruct Hpo as [->|Hpo].
+        - apply H1. apply in_or_app. right. exact HpR.
+        - apply IH; assumption. }
+      lia. }
+    intros x Hx. apply (Hgen (rk x) x eq_refl Hx).
+  Qed.
+
+  Definition rgood (m : zmap Z) : Prop := zsorted m /\ forall k c, In (k, c) m -> 1 <= c.
+  Lemma bump_rgood k m : rgood m -> rgood (fst (bump k m)).
+  Proof.
+    intros (Hs & Hc). unfold bump. cbn [fst]. split; [apply zsorted_minsert; exact Hs|].
+    intros k' c' H. destruct (minsert_in _ _ _ _ _ H) as [(-> & ->)|H']; [|apply (Hc _ _ H')].
+    destruct (mfind k m) as [c0|] eqn:E; [|lia]. pose proof (Hc _ _ (mfind_In _ _ _ E)). lia.
+  Qed.
+  Lemma sort_links_rgood nodes : forall ls q removed s r, sort_links Q St qpush nodes ls q removed s = Some r ->
+    rgood removed -> rgood (snd (fst r)).
+  Proof.
+    induction ls as [|l ls IH]; intros q removed s r H Hg; cbn [sort_links] in H.
+    - inversion H; subst. exact Hg.
+    - pose proof (bump_rgood (l_obj l) removed Hg) as Hg1.
+      destruct (bump (l_obj l) removed) as [removed1 seen]. cbn [fst] in Hg1.
+      destruct (mfind (l_obj l) nodes) as [nd|]; cbn [obind] in H; [|discriminate].
+      destruct (seen =? nparents nd).
+      + destruct (qpush nd (l_obj l) s q) as [[q1 s1]|]; cbn [obind fst snd] in H; [|discriminate]. eapply IH; eauto.
+      + eapply IH; eauto.
+  Qed.
+  Lemma sort_loop_rgood : forall fuel nodes q removed cur popped s r,
+    sort_loop Q St qpop qpush fuel objs nodes q removed cur popped s = Some r -> rgood removed -> rgood (snd (fst r)).
+  Proof.
+    induction fuel as [|f IH]; intros nodes q removed cur popped s r H Hg; cbn [sort_loop] in H;
+      destruct (qpop q) as [[id q0]|]; try discriminate; try (inversion H; subst; exact Hg).
+    destruct (mfind id objs) as [next|]; cbn [obind] in H; [|discriminate].
+    destruct (mfind id nodes) as [nd|]; cbn [obind] in H; [|discriminate].
+    destruct (chk_u 32 _) as [cur'|]; cbn [obind] in H; [|discriminate].
+    destruct (sort_links Q St qpush _ (o_links next) q0 removed s) as [[[q1 removed1] s1]|] eqn:El; cbn [obind] in H; [|discriminate].
+    eapply IH; [exact H|]. apply (sort_links_rgood _ _ _ _ _ _ El Hg).
+  Qed.
+
+  Lemma removed_ok_intro nodes : forall r,
+    (forall k c, In (k, c) r -> exists nd, mfind k nodes = Some nd /\ c = nparents nd) -> removed_ok nodes r = Some true.
+  Proof.
+    induction r as [|[k c] r IH]; intros H; [reflexivity|]. cbn [removed_ok].
+    destruct (H k c (or_introl eq_refl)) as (nd & -> & ->). cbn [obind].
+    rewrite IH by (intros k' c' Hin; apply H; right; exact Hin). cbn [obind]. rewrite Z.eqb_refl. reflexivity.
+  Qed.
+
+  Lemma final_removed_ok nodes qe removed cur ord : Inv nodes qe removed cur ord -> qelems qe = [] ->
+    incl ord (mkeys objs) -> rgood removed -> removed_ok nodes removed = Some true.
+  Proof.
+    intros HI Hqe Hincl (Hs & Hc).
+    pose proof (final_all _ _ _ _ _ HI Hqe Hincl) as Hall.
+    destruct HI as (HN & (J1 & J2 & J3) & _ & _ & _ & Hpos). rewrite Hqe, app_nil_r in J1.
+    assert (HP : Permutation ord (mkeys objs)).
+    { apply NoDup_Permutation; [exact J1|exact keys_nodup|]. intros x. split; [apply Hincl|apply Hall]. }
+    apply removed_ok_intro. intros k c Hin.
+    pose proof (zsorted_in_mfind _ _ _ Hs Hin) as Hf.
+    assert (Hcnt : c = cntz k (targets_of objs ord)) by (rewrite <- J2; unfold rcount; rewrite Hf; reflexivity).
+    pose proof (Hc _ _ Hin) as Hc1.
+    assert (Hk : In k (mkeys objs)).
+    { assert (Hink : In k (targets_of objs ord)) by (apply cntz_in_pos; lia).
+      unfold targets_of in Hink. apply in_flat_map in Hink. destruct Hink as (y & _ & Hky).
+      unfold tgt in Hky. destruct (mfind y objs) as [oy|] eqn:Ey; [|destruct Hky].
+      apply in_map_iff in Hky. destruct Hky as (l & <- & Hl). eapply targets_exist; eauto. }
+    destruct (Hpos k (Hall k Hk)) as (nd & Hnd & _). exists nd. split; [exact Hnd|].
+    rewrite (HN k nd Hnd), np_spec, Hcnt. apply targets_cnt_perm. exact HP.
   Qed.
 End LoopSpec.
 
@@ -826,4 +1107,190 @@ Proof.
   split; [exact (so_nodup _ _ _ _ _ S)|]. split; [exact (so_root _ _ _ _ _ S)|].
   split; [exact (sorted_lists_reachable _ _ _ _ _ S)|]. split; [exact (so_topo _ _ _ _ _ S)|].
   intros id Hid. rewrite Ho'. exact (so_pos _ _ _ _ _ S id Hid).
+Qed.
+
+(* ------------------------------------------------------------------------------------------ *)
+(* totality of sort_kahn                                                                       *)
+
+Definition all_targets_list (l : zmap obj) : list Z := flat_map (fun kv => map l_obj (o_links (snd kv))) l.
+Definition has (nodes : zmap node) (x : Z) : Prop := exists nd, mfind x nodes = Some nd.
+
+Lemma cntz_cons x y l : cntz x (y :: l) = cntz x [y] + cntz x l.
+Proof. change (y :: l) with ([y] ++ l). apply cntz_app. Qed.
+
+Lemma add_parents_links_total id : forall ls nodes, (forall l, In l ls -> has nodes (l_obj l)) ->
+  exists nodes', add_parents_links id ls nodes = Some nodes' /\ (forall x, has nodes' x <-> has nodes x) /\
+    forall x, np_of nodes' x = np_of nodes x + cntz x (map l_obj ls).
+Proof.
+  induction ls as [|l r IH]; intros nodes Hh.
+  - exists nodes. split; [reflexivity|]. split; [intros; reflexivity|]. intros x. cbn. lia.
+  - destruct (Hh l (or_introl eq_refl)) as (nd & End). cbn [add_parents_links]. rewrite End. cbn [obind].
+    set (t := l_obj l) in *. set (nodes1 := minsert t (push_parent nd (id, l_width l)) nodes).
+    assert (Hhas1 : forall x, has nodes1 x <-> has nodes x).
+    { intros x. unfold has, nodes1. destruct (Z.eq_dec x t) as [->|Hne].
+      - rewrite mfind_minsert_same. split; eauto.
+      - rewrite mfind_minsert_other by congruence. reflexivity. }
+    destruct (IH nodes1) as (nodes' & Hrun & Hhas & Hcnt).
+    { intros l' Hl'. apply Hhas1. apply Hh. right. exact Hl'. }
+    exists nodes'. split; [exact Hrun|]. split; [intros x; rewrite Hhas; apply Hhas1|].
+    intros x. rewrite Hcnt. cbn [map]. fold t. rewrite (cntz_cons x t).
+    assert (E : np_of nodes1 x = np_of nodes x + cntz x [t]).
+    { unfold np_of, nodes1. destruct (Z.eq_dec x t) as [->|Hne].
+      - rewrite mfind_minsert_same, End, cntz_single_same. unfold nparents, push_parent. cbn. rewrite app_length. cbn. lia.
+      - rewrite mfind_minsert_other by congruence. rewrite cntz_single_other by exact Hne. lia. }
+    lia.
+Qed.
+
+Lemma add_parents_objs_total : forall (l : zmap obj) nodes,
+  (forall id o lk, In (id, o) l -> In lk (o_links o) -> has nodes (l_obj lk)) ->
+  exists nodes', add_parents_objs l nodes = Some nodes' /\ (forall x, has nodes' x <-> has nodes x) /\
+    forall x, np_of nodes' x = np_of nodes x + cntz x (all_targets_list l).
+Proof.
+  induction l as [|[id o] r IH]; intros nodes Hh.
+  - exists nodes. split; [reflexivity|]. split; [intros; reflexivity|]. intros x. cbn. lia.
+  - cbn [add_parents_objs].
+    destruct (add_parents_links_total id (o_links o) nodes) as (n1 & Hr1 & Hh1 & Hc1).
+    { intros lk Hlk. eapply Hh; [left; reflexivity|exact Hlk]. }
+    rewrite Hr1. cbn [obind].
+    destruct (IH n1) as (n2 & Hr2 & Hh2 & Hc2).
+    { intros id' o' lk Hin Hlk. apply Hh1. eapply Hh; [right; exact Hin|exact Hlk]. }
+    exists n2. split; [exact Hr2|]. split; [intros x; rewrite Hh2; apply Hh1|].
+    intros x. rewrite Hc2, Hc1. unfold all_targets_list. cbn [flat_map snd]. rewrite cntz_app. lia.
+Qed.
+
+Lemma all_targets_keys (objs : zmap obj) : NoDup (mkeys objs) ->
+  targets_of objs (mkeys objs) = all_targets_list objs.
+Proof.
+  intros Hnd. unfold targets_of, all_targets_list, mkeys. rewrite flat_map_concat_map, map_map.
+  rewrite (flat_map_concat_map (fun kv => map l_obj (o_links (snd kv)))). f_equal.
+  apply map_ext_in. intros [k o] Hin. cbn [fst snd]. unfold tgt.
+  rewrite (mfind_of_In_nodup k o objs Hnd Hin). reflexivity.
+Qed.
+
+Lemma nodes_of_objs_has : forall objs nodes, nodes_of_objs objs = Some nodes ->
+  forall x, has nodes x <-> In x (mkeys objs).
+Proof.
+  intros objs nodes H x. destruct (nodes_of_objs_spec _ _ H) as (Hk & _). rewrite <- Hk. unfold has. split.
+  - intros (nd & Hnd). eapply mfind_in_keys_local. exact Hnd.
+  - intros Hin. apply in_keys_mfind. exact Hin.
+Qed.
+
+(* hypotheses of the totality theorem *)
+Record dag_ok (objs : zmap obj) (root : Z) (rk : Z -> nat) : Prop := {
+  dk_nodup : NoDup (mkeys objs);
+  dk_root : In root (mkeys objs);
+  dk_targets : forall id o l, mfind id objs = Some o -> In l (o_links o) -> In (l_obj l) (mkeys objs);
+  dk_acyclic : forall id o l, mfind id objs = Some o -> In l (o_links o) -> (rk id < rk (l_obj l))%nat;
+  dk_reach : forall x, In x (mkeys objs) -> reach objs root x;
+  dk_noroot : no_link_to objs root;
+  dk_size : total_size objs (mkeys objs) < 2 ^ 32 }.
+
+Theorem sort_kahn_total objs root rk g : from_objects objs root = Some g -> dag_ok objs root rk ->
+  (1 < length objs)%nat ->
+  exists g', sort_kahn g = Some g' /\ Permutation (g_order g') (mkeys objs).
+Proof.
+  intros Hfrom D Hlen.
+  pose proof Hfrom as Hfrom'. unfold from_objects in Hfrom'.
+  destruct (nodes_of_objs objs) as [nodes0|] eqn:En; cbn [obind] in Hfrom'; [|discriminate].
+  inversion Hfrom'; subst g. clear Hfrom'.
+  pose proof (nodes_of_objs_has _ _ En) as Hhas0.
+  destruct (nodes_of_objs_spec _ _ En) as (Hkeys0 & _ & _).
+  assert (Hlen0 : length nodes0 = length objs).
+  { rewrite <- (map_length fst nodes0), <- (map_length fst objs). fold (mkeys nodes0) (mkeys objs). rewrite Hkeys0. reflexivity. }
+  unfold sort_kahn. cbn [g_nodes g_order g_objs g_root g_parents_invalid].
+  destruct (length nodes0 <=? 1)%nat eqn:E; [apply Nat.leb_le in E; lia|].
+  (* update_parents *)
+  unfold update_parents. cbn [g_parents_invalid g_nodes g_objs g_order g_root negb].
+  set (cleared := map (fun kv => (fst kv, clear_parents (snd kv))) nodes0).
+  assert (Hhasc : forall x, has cleared x <-> In x (mkeys objs)).
+  { intros x. rewrite <- Hhas0. unfold has, cleared. rewrite mfind_map_val.
+    destruct (mfind x nodes0); cbn; split; intros (nd & H); try discriminate; eauto. }
+  assert (Hnpc : forall x, np_of cleared x = 0).
+  { intros x. unfold np_of, cleared. rewrite mfind_map_val. destruct (mfind x nodes0); reflexivity. }
+  destruct (add_parents_objs_total objs cleared) as (nodes1 & Hr1 & Hh1 & Hc1).
+  { intros id o lk Hin Hlk. apply Hhasc. eapply (dk_targets _ _ _ D); [apply mfind_of_In_nodup; [exact (dk_nodup _ _ _ D)|exact Hin]|exact Hlk]. }
+  rewrite Hr1. cbn [obind g_nodes g_objs g_root].
+  set (np := np_of nodes1).
+  assert (Hnp_spec : forall x, np x = cntz x (targets_of objs (mkeys objs))).
+  { intros x. unfold np. rewrite Hc1, Hnpc, (all_targets_keys objs (dk_nodup _ _ _ D)). lia. }
+  assert (Hnp_root : np root = 0).
+  { rewrite Hnp_spec, (all_targets_keys objs (dk_nodup _ _ _ D)).
+    pose proof (cntz_nonneg root (all_targets_list objs)) as Hnn.
+    destruct (Z.eq_dec (cntz root (all_targets_list objs)) 0) as [E0|E0]; [exact E0|exfalso].
+    assert (Hin : In root (all_targets_list objs)) by (apply cntz_in_pos; lia).
+    unfold all_targets_list in Hin. apply in_flat_map in Hin. destruct Hin as ([k o] & Hko & Hl).
+    apply in_map_iff in Hl. destruct Hl as (l & Hl1 & Hl2). exact (dk_noroot _ _ _ D k o l Hko Hl2 Hl1). }
+  assert (Hhas_parent : forall x, In x (mkeys objs) -> x <> root -> 1 <= np x).
+  { intros x Hx Hne. rewrite Hnp_spec. apply cntz_pos_in.
+    pose proof (dk_reach _ _ _ D x Hx) as R. inversion R as [E'|id o l R' Ho Hl E']; [congruence|].
+    unfold targets_of. apply in_flat_map. exists id. split; [eapply mfind_in_keys_local; exact Ho|].
+    unfold tgt. rewrite Ho. apply in_map. exact Hl. }
+  assert (Hnodes1 : forall x, In x (mkeys objs) -> exists nd, mfind x nodes1 = Some nd).
+  { intros x Hx. apply Hh1. apply Hhasc. exact Hx. }
+  (* the loop *)
+  set (fuel := (2 + length nodes1 + total_links objs)%nat).
+  assert (HI0 : Inv (list Z) (fun q => q) objs root np nodes1 [root] [] 0 []).
+  { split; [apply Nnodes_np_of|]. split.
+    - split; [cbn [app]; repeat constructor; intros []|]. split.
+      + intros x. reflexivity.
+      + intros x. cbn [app targets_of flat_map]. rewrite cntz_nil. split.
+        * intros [<-|[]]. left. reflexivity.
+        * intros [->|Hx]; [left; reflexivity|lia].
+    - split; [reflexivity|]. split; [lia|]. split; intros id []. }
+  assert (HE0 : Ext (list Z) (fun q => q) objs nodes1 [root] []).
+  { split; [exact Hnodes1|]. intros x [<-|[]]. exact (dk_root _ _ _ D). }
+  assert (Hlen1 : (length (mkeys objs) <= length nodes1)%nat).
+  { rewrite <- (map_length fst nodes1). fold (mkeys nodes1).
+    apply NoDup_incl_length; [exact (dk_nodup _ _ _ D)|].
+    intros x Hx. destruct (Hnodes1 x Hx) as (nd & Hnd). eapply mfind_in_keys_local. exact Hnd. }
+  assert (Hpn : forall q, kahn_pop q = None -> (fun q : list Z => q) q = []).
+  { intros q H. destruct q; [reflexivity|discriminate]. }
+  assert (Hps : forall q id q', kahn_pop q = Some (id, q') -> Permutation ((fun q : list Z => q) q) (id :: (fun q : list Z => q) q')).
+  { intros q id q' H. destruct q; inversion H; subst. apply Permutation_refl. }
+  assert (Hpp : forall (nd : node) id (s : unit) q q' s', kahn_push nd id s q = Some (q', s') ->
+            Permutation ((fun q : list Z => q) q') (id :: (fun q : list Z => q) q)).
+  { intros nd id s q q' s' H. inversion H; subst. apply heap_push_id_perm. }
+  assert (Hpt : forall (nd : node) id (s : unit) q, kahn_push nd id s q <> None) by (intros; discriminate).
+  assert (Hfuel : (length (mkeys objs) - length (@nil Z) < fuel)%nat) by (unfold fuel; cbn [length]; lia).
+  destruct (sort_loop_total (list Z) unit kahn_pop kahn_push (fun q => q) Hpn Hps Hpp objs root np Hnp_root Hpt
+              (dk_targets _ _ _ D) (dk_size _ _ _ D) fuel nodes1 [root] [] 0 [] tt HI0 HE0 Hfuel)
+    as ([[nodes' removed'] ord] & Hrun).
+  unfold kahn_loop. fold fuel. rewrite Hrun. cbn [obind].
+  destruct (sort_loop_spec (list Z) unit kahn_pop kahn_push (fun q => q) Hpn Hps Hpp objs root np Hnp_root
+              fuel nodes1 [root] [] 0 [] tt nodes' removed' ord Hrun HI0)
+    as (rest & qe & Hord & Hqe & HIend & _ & _ & _).
+  cbn [app] in Hord. subst rest.
+  assert (Hincl : incl ord (mkeys objs)).
+  { destruct HIend as (_ & _ & _ & _ & Hobjs & _). intros x Hx. destruct (Hobjs x Hx) as (o & Ho).
+    eapply mfind_in_keys_local. exact Ho. }
+  assert (Hgood : rgood removed').
+  { pose proof (sort_loop_rgood (list Z) unit kahn_pop kahn_push (fun q => q) Hps Hpp objs root np Hpt
+                  (dk_targets _ _ _ D) rk (dk_acyclic _ _ _ D) Hnp_spec Hhas_parent
+                  fuel nodes1 [root] [] 0 [] tt _ Hrun) as Hg. cbn [fst snd] in Hg.
+    apply Hg. split; [exact I|intros ? ? []]. }
+  rewrite (final_removed_ok (list Z) unit kahn_pop kahn_push (fun q => q) Hpn Hps Hpp objs root np Hpt
+             (dk_nodup _ _ _ D) (dk_targets _ _ _ D) rk (dk_acyclic _ _ _ D) Hnp_spec Hhas_parent
+             nodes' qe removed' _ ord HIend Hqe Hincl Hgood).
+  cbn [obind]. eexists. split; [reflexivity|]. cbn [g_order].
+  pose proof (final_all (list Z) unit kahn_pop kahn_push (fun q => q) Hpn Hps Hpp objs root np Hpt
+                (dk_nodup _ _ _ D) (dk_targets _ _ _ D) rk (dk_acyclic _ _ _ D) Hnp_spec Hhas_parent
+                nodes' qe removed' _ ord HIend Hqe Hincl) as Hall.
+  destruct HIend as (_ & (J1 & _) & _). rewrite Hqe, app_nil_r in J1.
+  apply NoDup_Permutation; [exact J1|exact (dk_nodup _ _ _ D)|]. intros x. split; [apply Hincl|apply Hall].
+Qed.
+
+
+
+(* sort_kahn on an acyclic graph all of whose objects are reachable from the root: total correctness *)
+Theorem kahn_order_topological objs root rk g :
+  from_objects objs root = Some g -> dag_ok objs root rk -> (1 < length objs)%nat ->
+  exists g', sort_kahn g = Some g' /\
+    NoDup (g_order g') /\ Permutation (g_order g') (mkeys objs) /\ (exists r, g_order g' = root :: r) /\
+    (forall id o l, In id (g_order g') -> mfind id objs = Some o -> In l (o_links o) ->
+       precedes (g_order g') id (l_obj l)) /\
+    positions_match g'.
+Proof.
+  intros Hfrom D Hlen. destruct (sort_kahn_total _ _ _ _ Hfrom D Hlen) as (g' & Hk & HP).
+  destruct (kahn_order_topological_partial _ _ _ _ Hfrom (dk_noroot _ _ _ D) Hlen Hk) as (H1 & H2 & _ & H4 & H5).
+  exists g'. repeat split; auto.
 Qed.
